@@ -26,6 +26,15 @@ Theorem C13_stale_timer : forall tm w, cw_timer w <> Some tm -> cw_fire tm w = (
 Proof. exact stale_fire. Qed.
 Print Assumptions C13_stale_timer.
 
+(* The per-writer specification holds INSIDE the perChannelWriter, for ALL schedules (threads doing the two
+   halves of Add, timer goroutines, delWriter, Close): with the ghost "items added to an instance, while it
+   was open, since its last flush or close" ([gview]/[gnext]), every batch any instance hands to flushFn at
+   any step is flush_spec of that ghost under the configuration of the channel the instance was created
+   for ([step_spec]); [gcheck] states it for every step of the schedule. *)
+Theorem C13_pcw_instance_spec : forall cf sched, gcheck cf p_init (fun _ => []) sched.
+Proof. intros cf sched. apply pcw_instance_spec. apply GI_init. Qed.
+Print Assumptions C13_pcw_instance_spec.
+
 (* a closed channelWriter drops what is added to it *)
 Theorem C13_closed_add_dropped : forall c tm w x, cw_closed w = true -> cw_add c tm w x = (w, None, false).
 Proof. exact add_closed. Qed.
